@@ -553,8 +553,7 @@ class ActionTypeHint(Action):
 
     def _check_type(self, value, append=False, cfg=None):
         islist = _is_action_value_list(self)
-        if not islist:
-            value = [value]
+        value = list(value) if islist else [value]
         for num, val in enumerate(value):
             try:
                 orig_val = val
@@ -618,8 +617,7 @@ class ActionTypeHint(Action):
 
     def instantiate_classes(self, value):
         islist = _is_action_value_list(self)
-        if not islist:
-            value = [value]
+        value = list(value) if islist else [value]
         sub_add_kwargs = getattr(self, "sub_add_kwargs", {})
         for num, val in enumerate(value):
             value[num] = adapt_typehints(
@@ -890,6 +888,7 @@ def adapt_typehints(
         elif not isinstance(val, list):
             raise_unexpected_value(f"Expected a {typehint_origin}", val)
         if subtypehints is not None:
+            val = list(val)
             for n, v in enumerate(val):
                 if isinstance(prev_val, list) and len(prev_val) == len(val):
                     adapt_kwargs_n = {**deepcopy(adapt_kwargs), "prev_val": prev_val[n]}
@@ -909,6 +908,8 @@ def adapt_typehints(
             val = dict(val)
         elif not isinstance(val, dict):
             raise_unexpected_value(f"Expected a {typehint_origin}", val)
+        else:
+            val = val.copy()
         if subtypehints is not None:
             if subtypehints[0] == int:
                 cast = str if serialize else int
@@ -1466,11 +1467,12 @@ def adapt_classes_any(val, serialize, instantiate_classes, sub_add_kwargs):
         except Exception:
             return orig_val
     elif isinstance(val, list):
-        for num, subval in enumerate(val):
-            val[num] = adapt_classes_any(subval, serialize, instantiate_classes, sub_add_kwargs)
+        val = [adapt_classes_any(subval, serialize, instantiate_classes, sub_add_kwargs) for subval in val]
     elif isinstance(val, dict):
-        for key, subval in val.items():
-            val[key] = adapt_classes_any(subval, serialize, instantiate_classes, sub_add_kwargs)
+        val = {
+            key: adapt_classes_any(subval, serialize, instantiate_classes, sub_add_kwargs)
+            for key, subval in val.items()
+        }
     return val
 
 
